@@ -7,7 +7,7 @@
         fact value makes the property fail -- kept as regression witnesses. *)
 From Coq Require Import List NArith ZArith QArith Bool Lia.
 From MxlBase Require Import ListX.
-From Codegen Require Import Codegen CodegenSpec CallArity ExpectedFacts CgInst CodegenProofs CallArityProofs.
+From Codegen Require Import Codegen CodegenSpec CallArity NameScope RustLit ExpectedFacts CgInst CodegenProofs CallArityProofs NameScopeProofs RustLitProofs.
 Import ListNotations.
 
 (** what the extractor read from the snapshot (before fixes/C07-*.diff) *)
@@ -530,3 +530,78 @@ Proof.
   - intros bk [-> | ->]; eexists; (split; [vm_compute; reflexivity |]); repeat split; vm_compute; reflexivity.
   - repeat split; try (vm_compute; reflexivity). vm_compute. discriminate.
 Qed.
+
+(** ---- name resolution (NameScope.v) at the pinned facts ------------------------------------ *)
+Lemma scope_sound_pinned (bk B : bind_kind) (N : name_kind) :
+  bk <> BkLaxNonEmpty -> bk <> BkUnknown -> B = bk -> N = NkLocalFirst ->
+  forall (V : Type) (vadd vsub vmul : V -> V -> V) (G : globals V) (f : sfn V) (acts : list (texp V)) (r : texp V)
+         (env : name -> option V) (vs : list V) (v : V),
+    acts <> [] \/ bk = BkStrict ->
+    translate_for V N B G f acts = Some r ->
+    map_opt (teval V vadd vsub vmul env) acts = Some vs ->
+    py_run V vadd vsub vmul G f vs = Some v ->
+    teval V vadd vsub vmul env r = Some v.
+Proof.
+  intros H1 H2 -> -> V vadd vsub vmul G f acts r env vs v Hg. apply scope_sound_bound_bk. apply bind_guard; assumption.
+Qed.
+
+(** seeded change C07-8 (the module's float constants consulted before the symbol table), on the
+    table's own functions and constants: m_param(a, c_half) and m_local(a, b) are still "translated"
+    -- generation does not raise -- but to expressions that read the CONSTANT where CPython reads
+    the parameter / the local: 11/2 instead of 19, -5/2 instead of 20 at (3, 5); the tree's order
+    gives 19 and 20 *)
+Definition env35 : name -> option Q := fun n => assoc n [(9001%N, 3); (9002%N, 5)].
+Lemma constants_first_refuted :
+  (exists e r, scope_entry 39%N = Some e
+     /\ translate_forQ NkGlobalFirst BkStrict fn_globals e (map TSym (margs 2)) = Some r
+     /\ optQ_eqb (tevalQ env35 r) (Some (11 # 2)) = true
+     /\ optQ_eqb (py_runQ fn_globals e [3; 5]) (Some 19) = true
+     /\ no_clash Q fn_globals e = false)
+  /\ (exists e r, scope_entry 40%N = Some e
+     /\ translate_forQ NkGlobalFirst BkStrict fn_globals e (map TSym (margs 2)) = Some r
+     /\ optQ_eqb (tevalQ env35 r) (Some (-5 # 2)) = true
+     /\ optQ_eqb (py_runQ fn_globals e [3; 5]) (Some 20) = true
+     /\ no_clash Q fn_globals e = false)
+  /\ (forall f, f = 39%N \/ f = 40%N \/ f = 41%N -> exists e r,
+         scope_entry f = Some e
+         /\ translate_forQ NkLocalFirst BkStrict fn_globals e (map TSym (margs 2)) = Some r
+         /\ optQ_eqb (tevalQ env35 r) (py_runQ fn_globals e [3; 5]) = true
+         /\ optQ_eqb (fsemQ f [3; 5]) (py_runQ fn_globals e [3; 5]) = true).
+Proof.
+  split; [| split].
+  - eexists; eexists. split; [reflexivity |]. split; [vm_compute; reflexivity |]. repeat split; vm_compute; reflexivity.
+  - eexists; eexists. split; [reflexivity |]. split; [vm_compute; reflexivity |]. repeat split; vm_compute; reflexivity.
+  - intros f [-> | [-> | ->]]; eexists; eexists; (split; [reflexivity |]); (split; [vm_compute; reflexivity |]); split; vm_compute; reflexivity.
+Qed.
+
+(** non-vacuity of [scope_sound]: m_rebind has a parameter called like a module constant, rebinds it
+    and reads the OTHER constant; it is translated, closed over the model's two arguments, and has
+    CPython's value 31 at (3, 5); it is outside the guard of [global_first_same] *)
+Lemma scope_nonvacuous :
+  exists e r, scope_entry 41%N = Some e
+    /\ translate_forQ NkLocalFirst BkStrict fn_globals e (map TSym (margs 2)) = Some r
+    /\ sort_names (syms Q r) = [9001%N; 9002%N]
+    /\ map_opt (tevalQ env35) (map TSym (margs 2)) = Some [3; 5]
+    /\ optQ_eqb (py_runQ fn_globals e [3; 5]) (Some 31) = true
+    /\ optQ_eqb (tevalQ env35 r) (Some 31) = true
+    /\ no_clash Q fn_globals e = false.
+Proof.
+  eexists; eexists. split; [reflexivity |]. split; [vm_compute; reflexivity |]. repeat split; vm_compute; reflexivity.
+Qed.
+
+(** ---- the explicit zero line (RustLit.v) at the pinned facts --------------------------------- *)
+Definition zero_lit_of (ut : ut_kind) : zero_lit :=
+  match ut with UtZero => ZlFloat | UtDropped => ZlAbsent | UtUnknown => ZlUnknown end.
+Lemma explicit_zero_pinned (z : zero_lit) (ut : ut_kind) (F : facts) : z = zero_lit_of ut -> ut = UtZero ->
+  forall (V : Type) (L : lang) (m : cmodel V), zero_lines_ok V z L F m = true.
+Proof. intros -> -> V L m. apply zero_lines_float_ok. Qed.
+
+(** the witness model of the repaired untouched-variable defect ([w_both]: an equation and a
+    variable no reaction acts on): the printed zero is ill typed in Rust only *)
+Lemma printed_zero_witness :
+  zero_lines_ok Q ZlPrinted Rs (C07_facts IaFrozen UtZero) w_both = false
+  /\ zero_lines_ok Q ZlPrinted Py (C07_facts IaFrozen UtZero) w_both = true
+  /\ zero_lines_ok Q ZlPrinted Ts (C07_facts IaFrozen UtZero) w_both = true
+  /\ zero_lines_ok Q ZlFloat Rs (C07_facts IaFrozen UtZero) w_both = true
+  /\ zero_vars Q (C07_facts IaFrozen UtZero) w_both (build_diff Q (entries Q w_both)) <> [].
+Proof. repeat split; try (vm_compute; reflexivity). vm_compute. discriminate. Qed.
